@@ -482,4 +482,37 @@ PROPS = {
         "quick": box(16, 30, 25, floor_evaluations=40, floor_shapes=10, grace=240),
         "thorough": box(16, 600, 480, floor_evaluations=200, floor_shapes=20, grace=600),
     },
+    "C19": {
+        "level": "fault_enumeration",
+        "technique": "runtime monitoring with fault injection: the fs-point trace of a history is "
+                     "recorded, then the history is re-run once per (point kind, occurrence) with an "
+                     "injected io::Error returned instead of the call (single failures and bursts of "
+                     "2-5), per-call attribution of injected faults and error-channel lines; real "
+                     "faults without hooks: rotation target blocked by a non-empty directory, "
+                     "RLIMIT_FSIZE (EFBIG) in a child",
+        "level_text": "Held on the executions explored: every log call returned (no panic); a record "
+                      "is missing only if an injected error hit its own write or the (re-)"
+                      "initialisation in its own call, and each such call left at least one ERRCODE "
+                      "line on the error channel; a failed rotation (rename/open) is reported and "
+                      "loses nothing; flush/cleanup/compression faults lose nothing; the stream stays "
+                      "duplicate-free and ordered; after the faults stop all further records arrive "
+                      "and rotation resumes (file count grows). Enumeration over the (point, "
+                      "occurrence) pairs of a history is exhaustive for half of the histories in the "
+                      "thorough tier, sampled (14 plans) in quick.",
+        "level_note": "Trusted: hook placement (error returned at the place where the real call "
+                      "would return it), per-call attribution via the injected-fault log, family "
+                      "parser. Buffered mode: records logged since the last successful flush count "
+                      "as 'own write' of a failing BufWriter write. read_dir cannot be failed by the "
+                      "hook (the call site has no error path); its real failure (directory removed) "
+                      "is C10's directory case. Error kinds: PermissionDenied, Other, StorageFull, "
+                      "Interrupted, NotFound (NotFound at rename is 'nothing to rename' by design and "
+                      "replaced).",
+        "rule": "8 of 10 cases are hook-fault histories (1 trace + N fault plans each), 1 of 10 the "
+                "blocked-rotation-target real fault, 1 of 10 the RLIMIT_FSIZE child; non-trivial iff "
+                "at least one fault plan (or real-fault run) was executed; distinct = (driver level, "
+                "naming, cleanup, write mode) resp. real-fault kind",
+        "assumptions": COMMON_ASSUMPTIONS,
+        "quick": box(16, 60, 25, floor_evaluations=60, floor_shapes=10),
+        "thorough": box(16, 1500, 480, floor_evaluations=400, floor_shapes=20),
+    },
 }
